@@ -50,7 +50,8 @@ def random_spec(rnd, n=7):
             dirs.append(p)
         else:
             depth = p.count('/')
-            tgt = rnd.choice(['..', 'nowhere'] + [('../' * depth) + x for x in spec if x != p][:6])
+            # targets never leave the tree (a link to the tree's parent would list other workers' scratch directories)
+            tgt = rnd.choice((['..'] if depth >= 1 else ['.']) + ['nowhere'] + [('../' * depth) + x for x in spec if x != p][:6])
             spec[p] = ('l', tgt)
     return spec
 
